@@ -29,8 +29,21 @@ pub struct Optimizer<F>(core::marker::PhantomData<F>);
 
 impl<F: Field> Optimizer<F> {
     pub fn optimize(ops: Vec<Op<F>>) -> (Vec<Op<F>>, HashMap<WitnessId, WitnessId>) {
+        Self::optimize_with_external_inputs(ops, &[])
+    }
+
+    /// Like [`Self::optimize`], for op lists in which the witnesses in `external_inputs`
+    /// (private inputs) are set from outside rather than written by an op.
+    pub fn optimize_with_external_inputs(
+        ops: Vec<Op<F>>,
+        external_inputs: &[WitnessId],
+    ) -> (Vec<Op<F>>, HashMap<WitnessId, WitnessId>) {
         let (ops, rewrite) = Deduplicator::new().run(ops);
-        let ops = MulAddFusion::new(&ops).run(ops);
+        let external: Vec<WitnessId> = external_inputs
+            .iter()
+            .map(|id| id.resolve(&rewrite))
+            .collect();
+        let ops = MulAddFusion::with_external_inputs(&ops, &external).run(ops);
         (ops, rewrite)
     }
 }
